@@ -754,6 +754,71 @@ fn sweep_corpus(rec: &Recorder) -> Tally {
     t
 }
 
+/// data that looks like structure: the 32-bit block of a v2+ file (which a reader skips by its header counts) starts with, or
+/// contains, the magic, a whole header, or a whole other TZif file; the 32-bit block is absent although its header announces
+/// one; the magic as the value of a transition time / offset / leap record / designation of either block
+fn sweep_embedded_structure(rec: &Recorder) -> Tally {
+    let mut tl = Tally::default();
+    const MAGIC: i64 = 0x545A_6966; // "TZif"
+    let other_v1 = Block { trans: vec![(86400, 1)], types: vec![(7200, 0, 0), (10800, 1, 4)], chars: b"EET\0EEST\0".to_vec(), ..Default::default() };
+    let other_small = Block { types: vec![(0, 0, 0)], chars: b"UTC\0".to_vec(), ..Default::default() };
+    let mut embeds: Vec<(String, Vec<u8>)> = vec![];
+    for ver in [0u8, b'2', b'3'] {
+        embeds.push((format!("magic + version {ver} + zeros"), { let mut v = b"TZif".to_vec(); v.push(ver); v.extend_from_slice(&[0; 39]); v }));
+        embeds.push((format!("header of another file (version {ver})"), tzif::header(ver, &other_v1, &CountOverride::default())));
+    }
+    embeds.push(("magic only".into(), b"TZif\0\0\0".to_vec()));
+    embeds.push(("a whole v1 file".into(), tzif::file(0, &other_v1, None, None)));
+    embeds.push(("a whole v2 file".into(), tzif::file(b'2', &other_small, Some(&other_v1), Some(b"EET-2EEST,M3.5.0/3,M10.5.0/4"))));
+    embeds.push(("a whole v3 file without footer text".into(), tzif::file(b'3', &other_small, Some(&other_v1), Some(b""))));
+    let mains: Vec<(Block, &[u8])> = vec![
+        (Block { types: vec![(3600, 0, 0)], chars: b"CET\0".to_vec(), ..Default::default() }, b"CET-1"),
+        (Block { trans: vec![(0, 1), (1000, 0)], types: vec![(-18000, 0, 0), (-14400, 1, 4)], chars: b"EST\0EDT\0".to_vec(), ..Default::default() }, b"EST5EDT,M3.2.0,M11.1.0"),
+        (Block { trans: vec![(MAGIC, 1)], types: vec![(0, 0, 0), (MAGIC as i32, 0, 4)], chars: b"UTC\0TZif\0".to_vec(), leaps: vec![(MAGIC + (1 << 33), 1)], ..Default::default() }, b""),
+    ];
+    for (main, footer) in &mains {
+        for ver in [b'2', b'3', b'4'] {
+            // well-formed 32-bit blocks whose first octets are the magic
+            let firsts = [
+                Block { trans: vec![(MAGIC, 0)], types: vec![(0, 0, 0)], chars: b"UTC\0".to_vec(), ..Default::default() },
+                Block { types: vec![(MAGIC as i32, 0, 0)], chars: b"UTC\0".to_vec(), ..Default::default() },
+                Block { trans: vec![(5, 0), (MAGIC, 0)], types: vec![(0, 0, 0)], chars: b"TZif\0".to_vec(), leaps: vec![(MAGIC, 1)], ..Default::default() },
+            ];
+            for b1 in &firsts {
+                check_file(&tzif::file(ver, b1, Some(main), Some(footer)), "32-bit block holding the magic as a value", rec, "embedded_structure", &mut tl);
+            }
+            // arbitrary octets in the skipped block: one local time type record + a designation pool hold the embedded octets
+            for (what, e) in &embeds {
+                for prefix in [0usize, 1, 2, 4, 6, 8, 44] {
+                    let mut raw = vec![0u8; prefix];
+                    raw.extend_from_slice(e);
+                    while raw.len() < 7 {
+                        raw.push(0);
+                    }
+                    let b1 = Block { types: vec![(i32::from_be_bytes([raw[0], raw[1], raw[2], raw[3]]), raw[4], raw[5])], chars: raw[6..].to_vec(), ..Default::default() };
+                    debug_assert_eq!(tzif::body(&b1, false), raw);
+                    let f = tzif::file(ver, &b1, Some(main), Some(footer));
+                    check_file(&f, &format!("32-bit block = {prefix} zero octets + {what}"), rec, "embedded_structure", &mut tl);
+                    tl.corrupt += 1;
+                }
+            }
+            // the 32-bit block is missing although the first header announces it (and with a first header announcing nothing)
+            for h1 in [tzif::header(ver, &other_v1, &CountOverride::default()), tzif::header(ver, &Block::default(), &CountOverride::default())] {
+                let mut f = h1;
+                f.extend_from_slice(&tzif::header(ver, main, &CountOverride::default()));
+                f.extend_from_slice(&tzif::body(main, true));
+                f.push(b'\n');
+                f.extend_from_slice(footer);
+                f.push(b'\n');
+                check_file(&f, "first header directly followed by the second header", rec, "embedded_structure", &mut tl);
+                tl.corrupt += 1;
+            }
+        }
+    }
+    rec.sub("embedded_structure", json!({"files": tl.evals, "accepted": tl.accepted, "rejected": tl.rejected}));
+    tl
+}
+
 pub fn run(args: &Args) -> i32 {
     let rec = Recorder::new(args, "exploration");
     let thorough = args.thorough();
@@ -764,9 +829,10 @@ pub fn run(args: &Args) -> i32 {
     total = total.merge(sweep_designations(&rec));
     total = total.merge(sweep_leap_fields(&rec));
     total = total.merge(sweep_header_counts(&rec));
+    total = total.merge(sweep_embedded_structure(&rec));
     rec.add(total.evals, total.corrupt);
     rec.digest("tzif", total.digest);
-    rec.set_rule("writer side: zones over {0,1,3} transitions x {1,2,3} types x {0,1,2} leap records x 4 designation pools (shared / overlapping / empty / unterminated tail) x 4 indicator layouts x 4 time sets (32/64-bit extremes) x footers, encoded v1/v2/v3 by an independent writer with a DIFFERENT zone in the 32-bit block of v2+ files; decoded zone must equal TimeZone::new(expected parts). reader side: every file of the fat and slim corpora decoded by an independent reader; corpus mutations (6 byte values at every offset and every truncation of every slim and a quarter of the fat files; thorough: all 256 values at every offset of every distinct file) must get the same accept/reject verdict and zone as the independent reader. reject side: every corruption class of the property on the synthesised files; header count tuples (0..=4 indicators, 0..=3 types, 0/4 chars) with a block laid out to match, in either header; every designation index 0..=255 x length 0..=8 x 3 pool tails; different version bytes in the two headers. non-trivial = corrupted files");
+    rec.set_rule("writer side: zones over {0,1,3} transitions x {1,2,3} types x {0,1,2} leap records x 4 designation pools (shared / overlapping / empty / unterminated tail) x 4 indicator layouts x 4 time sets (32/64-bit extremes) x footers, encoded v1/v2/v3 by an independent writer with a DIFFERENT zone in the 32-bit block of v2+ files; decoded zone must equal TimeZone::new(expected parts). reader side: every file of the fat and slim corpora decoded by an independent reader; corpus mutations (6 byte values at every offset and every truncation of every slim and a quarter of the fat files; thorough: all 256 values at every offset of every distinct file) must get the same accept/reject verdict and zone as the independent reader. reject side: every corruption class of the property on the synthesised files; header count tuples (0..=4 indicators, 0..=3 types, 0/4 chars) with a block laid out to match, in either header; every designation index 0..=255 x length 0..=8 x 3 pool tails; different version bytes in the two headers; 32-bit blocks that start with or contain the magic, a header or a whole other file, and files whose 32-bit block is missing. non-trivial = corrupted files");
     rec.set_exhaustive(true);
     rec.outcome("accepted");
     rec.outcome("rejected");
